@@ -1,0 +1,28 @@
+//go:build verif
+
+package view
+
+import "fmt"
+
+// VerifPrint renders e the same way as Print does, but for an explicitly given
+// screen height instead of the height of the terminal and without clearing the
+// screen. It is compiled only with the verif build tag.
+func VerifPrint(e View, screenLines int) error {
+	minLines := e.MinLines()
+	if screenLines < minLines {
+		fmt.Printf("screen height is not sufficient: %d < %d", screenLines, minLines)
+		return nil
+	}
+
+	lines := e.MaxLines()
+	if lines < 0 || lines > screenLines {
+		lines = screenLines
+	}
+
+	err := e.Print(lines)
+	if err != nil {
+		return fmt.Errorf("element printing failed: %w", err)
+	}
+
+	return nil
+}
